@@ -156,6 +156,7 @@ package vecengine
 //@   loop 1 invariant [a] arrof(hv(mergedBefore)) != arrof(hv(scatteredBefore))
 //@   loop 1 invariant [f] !arrfresh(hv(scatteredBefore), _loopalloc)
 //@   loop 1 invariant forall(j int, j >= 0 ==> hbSeq(hv(scatteredBefore), j) == atentry(hbSeq(hv(scatteredBefore), j)) && hbMin(hv(scatteredBefore), j) == atentry(hbMin(hv(scatteredBefore), j)))
+//@   loop 1 hint assert forall(j int, j >= 0 && j != _k - 1 ==> hbSeq(hv(mergedBefore), j) == iterold(hbSeq(hv(mergedBefore), j)) && hbMin(hv(mergedBefore), j) == iterold(hbMin(hv(mergedBefore), j)))
 //@   loop 1 invariant forall(c, 0, _k, (gfork(hv(scatteredBefore), _range[c], len(_range[c])) ==> hbFork(hv(mergedBefore), c)) && (!gfork(hv(scatteredBefore), _range[c], len(_range[c])) ==> hbSeq(hv(mergedBefore), c) == gmax(hv(scatteredBefore), _range[c], len(_range[c]))))
 //@
 //@ // fillGlobalBranchID: the event continues its self-parent's branch exactly when its sequence number is the branch's
